@@ -37,6 +37,9 @@ namespace sim
 #ifdef HAVE_S5
          case SET_COV: return run_set5( c );
 #endif
+#ifdef HAVE_S9
+         case SET_TREE_UW: return run_set9( c );
+#endif
 #ifdef HAVE_S7
          case SET_BUF1: return run_set7( c );
 #endif
@@ -72,6 +75,9 @@ namespace sim
 #ifdef HAVE_S5
          case SET_COV: return true;
 #endif
+#ifdef HAVE_S9
+         case SET_TREE_UW: return true;
+#endif
 #ifdef HAVE_S7
          case SET_BUF1: return true;
 #endif
@@ -90,7 +96,8 @@ namespace sim
          case SET_BUF1:
          case SET_BUF64: return CAP_DEPTH | CAP_COLUMN | CAP_STATE | CAP_PLAINCTL | CAP_REMATCH | CAP_CTLSWITCH | CAP_PRIVSTATE;
          case SET_LAZY: return CAP_MEMORY | CAP_SETEND | CAP_DEPTH | CAP_STATE | CAP_PLAINCTL | CAP_CTLSWITCH | CAP_PRIVSTATE;
-         case SET_TREE: return CAP_MEMORY | CAP_SETEND | CAP_DEPTH | CAP_COLUMN | CAP_PRIVSTATE | CAP_TREEOPS;
+         case SET_TREE:
+         case SET_TREE_UW: return CAP_MEMORY | CAP_SETEND | CAP_DEPTH | CAP_COLUMN | CAP_PRIVSTATE | CAP_TREEOPS;
          case SET_COV: return CAP_MEMORY | CAP_SETEND | CAP_DEPTH | CAP_COLUMN;
          default: return 0;
       }
@@ -142,6 +149,9 @@ namespace sim
       o << "topM " << int( c.topM ) << "\n";
       o << "vetoseed " << c.vetoseed << "\n";
       o << "maximum " << c.maximum << "\n";
+      if( c.short_by != 0 ) {
+         o << "short_by " << c.short_by << "\n";
+      }
       o << "input " << hex( c.input ) << "\n";
       for( int i = 0; i < NODES; ++i ) {
          const NodeRow& r = c.g.n[ i ];
@@ -197,6 +207,9 @@ namespace sim
          }
          else if( key == "maximum" ) {
             ls >> c.maximum;
+         }
+         else if( key == "short_by" ) {
+            ls >> c.short_by;
          }
          else if( key == "input" ) {
             std::string h;
